@@ -1411,7 +1411,7 @@ func (x *Exec) checkCalleeFrame(fr *Frame, st *State, fc *FuncContract, name str
 				}
 			}
 			if !covered {
-				x.oblige(fr, st, "frame", fmt.Sprintf("callee %s assigns %s@%s", name, a, x.siteLabel(n)), Or(alts...), n)
+				x.oblige(fr, st, "calleeframe", fmt.Sprintf("callee %s assigns %s@%s", name, a, x.siteLabel(n)), Or(alts...), n)
 			}
 			continue
 		}
@@ -1435,7 +1435,7 @@ func (x *Exec) checkCalleeFrame(fr *Frame, st *State, fc *FuncContract, name str
 			}
 		}
 		if !covered {
-			x.oblige(fr, st, "frame", fmt.Sprintf("callee %s assigns %s@%s", name, a, x.siteLabel(n)), TFalse, n)
+			x.oblige(fr, st, "calleeframe", fmt.Sprintf("callee %s assigns %s@%s", name, a, x.siteLabel(n)), TFalse, n)
 		}
 	}
 }
